@@ -11,12 +11,12 @@ REPO=${VERIF_REPO:-/repo}; SEED=${1:-1}
 HERE=$(cd "$(dirname "$0")/../.." && pwd)
 export GOWORK=off GOPROXY=off GOSUMDB=off GOTOOLCHAIN=local
 L=$(git -C "$REPO" log --format=%h --grep "echo the client's UDP payload size" | head -1)
-W=$(mktemp -d /tmp/c08-legacy.XXXXXX)
+W=$(mktemp -d "${C08_SCRATCH:-/tmp}/c08-legacy.XXXXXX")
 git -C "$REPO" worktree add -q --detach "$W/repo" "${L}^"
 trap 'git -C "$REPO" worktree remove --force "$W/repo"; git -C "$REPO" worktree prune; rm -rf "$W"' EXIT
 cp "$REPO/internal/dnsserver/verif_export_c08.go" "$W/repo/internal/dnsserver/"
 sed "s#=> /repo#=> $W/repo#" "$HERE/go.mod" > "$W/go.mod"; cp "$HERE/go.sum" "$W/go.sum"
-( cd "$HERE" && GOFLAGS="-mod=mod -modfile=$W/go.mod" go build -tags verif -o "$W/c08" ./cmd/c08 )
+( cd "$HERE" && GOFLAGS="-mod=mod -modfile=$W/go.mod" go build -tags verif,c08legacy -o "$W/c08" ./cmd/c08 )
 ( cd "$HERE" && C08_LEGACY=1 "$W/c08" -seed "$SEED" -tier quick -model "$HERE/../lean/.lake/build/bin/agdmodel" -out "$W/out.json" 2>/dev/null )
 python3 - "$W/out.json" <<'PY'
 import json, sys
